@@ -176,7 +176,7 @@ PROPERTIES['C16'] = dict(
 
 
 # ------------------------------------------------------------------ unit zone
-ZONE_LEMMAS = ['lemma_epoch', 'lemma_secrepr', 'lemma_osec_lex', 'lemma_prepost']
+ZONE_LEMMAS = ['lemma_epoch', 'lemma_secrepr', 'lemma_osec_lex', 'lemma_prepost', 'lemma_tl_sat', 'lemma_consts']
 ZD = dict(defines=['OSEC_OPAQUE'])     # the kernel sees the second ordinal of a civil second as an opaque symbol (contracts/civil.h)
 
 
@@ -258,4 +258,18 @@ PROPERTIES['C14'] = dict(
                'such value; the functions are const and have an empty assigns clause (frame condition checked by CBMC\'s contract instrumentation).',
     level_note='Covers the per-direction hint state only. NOT decided: the name cache in time_zone_impl.cc (std::map + mutex) and format/parse.',
     trusted_base=ZONE_TRUSTED, not_decided='time_zone_map cache (load_time_zone), format/parse history independence', assumptions=ZONE_ASSUME,
+)
+
+PROPERTIES['C10'] = dict(
+    goals=lambda: zone_lemmas() + [enforce('zone', f, timeout=400, **ZD) for f in ('LocalTime_TransitionType', 'LocalTime_Transition', 'BreakTime', 'MakeUnique_tp', 'MakeUnique_unix',
+                                                                                'MakeSkipped', 'MakeRepeated', 'TimeLocal')] + maketime_goals() + civil_second_support(),
+    level_text='Proof, under the stated table well-formedness and margin, that the lookup kernel has no undefined behaviour for ANY int64 instant and ANY valid civil second '
+               '(every signed-overflow, conversion, pointer and bounds obligation CBMC generates for LocalTime x2, BreakTime, MakeTime, MakeUnique/Skipped/Repeated and TimeLocal is '
+               'discharged, with civil_second arithmetic through its C04/C05 contracts), and of the saturation clauses: a civil second before civil_min / after civil_max of the '
+               'governing type converts to exactly min() / max(), the last representable second still converts exactly (MakeTime postconditions with SAT64), and TimeLocal adds '
+               'c4_shift * 400 years to each of pre/trans/post saturating at max() (for shifts too large to multiply out: max(), which lemma_tl_sat shows is the saturated sum for '
+               'every non-negative instant).',
+    level_note='PARTIAL. NOT decided: next_transition / prev_transition, the 400-year branch of BreakTime (excluded by precondition), convert()/lookup wrappers in time_zone.h and '
+               'time_zone_lookup.cc, fixed-offset zones, and that Load establishes the assumed well-formedness and margin (finding D6 shows it does not establish the margin for crafted files).',
+    trusted_base=ZONE_TRUSTED, not_decided='next/prev_transition; BreakTime beyond the last row in extended zones; Load; public wrappers', assumptions=ZONE_ASSUME,
 )
